@@ -102,6 +102,7 @@ def _load():
     from .oracles.c10 import C10
     from .oracles.c11 import C11
     from .oracles.c12 import C12
+    from .oracles.c13 import C13
 
     wide = profile()
     faulty = profile(f_zero=0.8, f_infarr=0.3, f_batch0=0.8, qcap=0.7, sched=0.35, renege=0.4, batch=0.4)
@@ -161,6 +162,11 @@ def _load():
     register(Profile("C12", [C12], [(1, tt)],
                      "distinct history digest; non-trivial = >=1 shift end with a service in flight or >=1 slot with more customers waiting than its size",
                      B(30000, 300000)))
+    pat = profile(renege=0.8, jockey=0.5, baulk=0.6, prio=0.5, preempt=0.3, sched=0.25, qcap=0.4, syscap=0.2, n=[1, 2, 2, 3], ps=0.03, slot=0.05,
+                  route_kinds={"matrix": 0.3, "net": 0.6, "pb": 0.1, "fpb": 0.0}, f_boundary=0.05)
+    register(Profile("C13", [C13], [(1, pat)],
+                     "distinct history digest; non-trivial = >=1 renege or >=1 baulking decision with 0 < p < 1",
+                     B(40000, 400000)))
     cap = profile(qcap=0.9, qcap_vals=[INF, 0, 0, 1, 2, 3], syscap=0.4, batch=0.5, baulk=0.4, renege=0.3, jockey=0.5, n=[1, 2, 2, 3], **NOREROUTE)
     register(Profile("C06", [C06], [(1, cap)],
                      "distinct history digest; non-trivial = >=1 rejection and >=1 admission into a node holding capacity-1",
